@@ -699,10 +699,36 @@ fn judge_c22() {
                 .collect();
             let in_doubt = gets.iter().filter(|(t, x)| *t == topic && x.resp.starts_with("ERR") && x.inv < g.ret).count();
             if pending.len() > in_doubt {
+                // had the answering node, when it answered, applied fewer committed rollovers of this
+                // topic than some node had applied when the GET was invoked? (stale follower metadata)
+                let rollovers_applied = |node: Option<u64>, upto: u64| -> BTreeMap<u64, usize> {
+                    let mut m: BTreeMap<u64, usize> = BTreeMap::new();
+                    for a in octopii::sim::applies() {
+                        if !a.ok || a.step > upto || node.map(|n| n != a.node).unwrap_or(false) {
+                            continue;
+                        }
+                        let cmd = octopii::sim::committed(a.index);
+                        let is_rollover_of_topic = serde_json::from_slice::<serde_json::Value>(&cmd)
+                            .ok()
+                            .and_then(|v| v.get("RolloverTopic").and_then(|r| r.get("name")).and_then(|n| n.as_str()).map(|n| n == topic))
+                            .unwrap_or(false);
+                        if is_rollover_of_topic {
+                            *m.entry(a.node).or_insert(0) += 1;
+                        }
+                    }
+                    m
+                };
+                let mine = rollovers_applied(Some(g.node), g.ret).get(&g.node).copied().unwrap_or(0);
+                let best_elsewhere = rollovers_applied(None, g.inv).values().copied().max().unwrap_or(0);
+                let behind = mine < best_elsewhere;
                 finding(
                     "c22.empty_with_pending",
                     format!("GET op {} on node {} answered EMPTY for {} while {} acknowledged PUTs (e.g. {:?}) had been acknowledged before it was invoked and were not yet delivered", g.opid, g.node, topic, pending.len(), pending[0]),
-                    &[("pending", serde_json::json!(pending.len())), ("during_drain", serde_json::json!(h.iter().any(|e| e.kind == "drain_start" && e.step < g.inv)))],
+                    &[
+                        ("pending", serde_json::json!(pending.len())),
+                        ("during_drain", serde_json::json!(h.iter().any(|e| e.kind == "drain_start" && e.step < g.inv))),
+                        ("answering_node_behind_on_rollovers", serde_json::json!(behind)),
+                    ],
                 );
                 break;
             }
